@@ -75,6 +75,9 @@ func c15op(r *rand.Rand, actor int, local bool) core.Op {
 		if r.IntN(3) == 0 {
 			return core.Op{Kind: "terminate", Actor: actor, X: int64(r.IntN(3))}
 		}
+		if r.IntN(3) == 0 {
+			return core.Op{Kind: "local-lookup", Actor: actor, S: c15names[r.IntN(3)]}
+		}
 		return core.Op{Kind: "newservice", Actor: actor, S: c15names[r.IntN(3)]}
 	}
 	switch k := r.IntN(12); {
@@ -211,6 +214,17 @@ func (c15) Run(c *core.Case, env *core.Env) {
 						local = append(local, svc)
 					}
 					env.Return(h, out, err)
+				case "local-lookup":
+					// the hosting process looks a service up through its own
+					// session (namespace of the directory, no connection):
+					// visible or not is all it can tell
+					zzsim.SetNode("server")
+					h := env.Invoke(a, "local-lookup", op.S)
+					_, err := srv.Session().Proxy(op.S, 1)
+					if err != nil && !strings.Contains(err.Error(), "service not found") {
+						err = nil // found, but not reachable from here: visible all the same
+					}
+					env.Return(h, "", err)
 				case "terminate":
 					if len(local) == 0 {
 						continue
@@ -465,6 +479,13 @@ func c15step(s c15reg, in c15in, out c15out) (bool, c15reg) {
 				}
 				idname, ep, _ := strings.Cut(out.out, "@")
 				return idname == fmt.Sprintf("%d:%s", id, name) && (s.ep[id] == "*" || s.ep[id] == ep), s
+			}
+		}
+		return !out.ok, s
+	case "local-lookup":
+		for _, name := range s.ready {
+			if name == in.name {
+				return out.ok, s
 			}
 		}
 		return !out.ok, s
